@@ -90,6 +90,9 @@ var addrModes = []addrMode{
 	{Name: "subdir-below-symlink-to-top", Dir: func(l *addrLayout) string { return filepath.Join(l.LinkTop, "sub", "deeper") }, GitDir: func(l *addrLayout) string { return l.GitDir }},
 	{Name: "GIT_DIR-symlink", Dir: func(l *addrLayout) string { return l.Outside },
 		Env: func(l *addrLayout) []string { return []string{"GIT_DIR=" + l.LinkGitDir} }, GitDir: func(l *addrLayout) string { return l.GitDir }},
+	{Name: "GIT_DIR+GIT_WORK_TREE", Dir: func(l *addrLayout) string { return l.Outside },
+		Env: func(l *addrLayout) []string { return []string{"GIT_DIR=" + l.GitDir, "GIT_WORK_TREE=" + l.Top} }, GitDir: func(l *addrLayout) string { return l.GitDir }},
+	{Name: "gitfile-relative", Dir: func(l *addrLayout) string { return filepath.Join(l.GitFileDir, "relative") }, GitDir: func(l *addrLayout) string { return l.GitDir }},
 	{Name: "GIT_DIR-dot-from-gitdir", Dir: func(l *addrLayout) string { return l.GitDir },
 		Env: func(l *addrLayout) []string { return []string{"GIT_DIR=."} }, GitDir: func(l *addrLayout) string { return l.GitDir }},
 }
@@ -195,6 +198,10 @@ func buildLayout(base string, ac *addrCase) (*addrLayout, *gitrepo.Repo, error) 
 	l.GitFileDir = filepath.Join(base, "gitfile")
 	os.MkdirAll(l.GitFileDir, 0o755)
 	os.WriteFile(filepath.Join(l.GitFileDir, ".git"), []byte("gitdir: "+l.GitDir+"\n"), 0o644)
+	os.MkdirAll(filepath.Join(l.GitFileDir, "relative"), 0o755)
+	if rel, err := filepath.Rel(filepath.Join(l.GitFileDir, "relative"), l.GitDir); err == nil {
+		os.WriteFile(filepath.Join(l.GitFileDir, "relative", ".git"), []byte("gitdir: "+rel+"\n"), 0o644)
+	}
 	l.LinkDeepReal = filepath.Join(base, "real", "a", "b")
 	os.MkdirAll(l.LinkDeepReal, 0o755)
 	l.LinkDeep = filepath.Join(base, "lnk")
@@ -330,7 +337,7 @@ func logProblems(ar *addrRun, l *addrLayout, m addrMode) []string {
 
 func checkC13(c *Ctx) {
 	c.Ev.Level = "exploration"
-	c.Ev.Rule = "every generated repository flavour (plain; refs/replace of a commit by a bigger/smaller one, of a tree, of a blob; info/grafts adding, dropping, redirecting parents; shallow marker) x 10 ways of addressing it (top, subdirectory, inside .git, gitfile, GIT_DIR absolute/relative, git -C dir sizer, linked worktree and its subdirectory, bare copy): stdout must be byte-identical across addressing modes and equal the ObjGraph oracle on the objects as stored (ScanJudge; replace refs are ordinary references); the fake git's log must show --no-replace-objects, GIT_GRAFT_FILE=/dev/null and the real GIT_DIR on every invocation; shallow => refused; distinct = distinct (graph, flavour, mode)"
+	c.Ev.Rule = "every generated repository flavour (plain; refs/replace of a commit by a bigger/smaller one, of a tree, of a blob; info/grafts adding, dropping, redirecting parents; shallow marker) x 17 ways of addressing it (top, subdirectory, inside .git, gitfile with an absolute and a relative path, GIT_DIR absolute / relative / '.' / naming a symbolic link / with GIT_WORK_TREE, git -C dir sizer, linked worktree and its subdirectory, bare copy, start directory entered through a symbolic link with GIT_DIR=../.., symbolic link to the top and a subdirectory below it; PWD is the logical path as a shell sets it): stdout must be byte-identical across addressing modes and equal the ObjGraph oracle on the objects as stored (ScanJudge; replace refs are ordinary references); the fake git's log must show --no-replace-objects, GIT_GRAFT_FILE=/dev/null and the real GIT_DIR on every invocation; shallow => refused; distinct = distinct (graph, flavour, mode)"
 	env := newScanEnv(c, true, false)
 	e := &c10Env{c: c, env: env, fake: buildFakeGit(c)}
 	rng := rand.New(rand.NewSource(c.Seed))
